@@ -8,7 +8,8 @@ use std::path::Path;
 use surrealkv::verif::{wal_read_segment_with_offsets, wal_repair_segment, VerifWal, WalReadEnd};
 
 use crate::case::{fresh_dir, on_fresh_thread, LAST_PANIC};
-use crate::exec::Violation;
+use crate::exec::{open_store, Violation};
+use crate::interpose as ip;
 use crate::framework::{CheckDef, Judged, Tier};
 use crate::plan::*;
 use crate::rng::Rng;
@@ -368,9 +369,246 @@ fn run_case(plan: &Plan) -> Judged {
 	j
 }
 
+fn copy_dir(a: &Path, b: &Path) -> std::io::Result<()> {
+	std::fs::create_dir_all(b)?;
+	for e in std::fs::read_dir(a)? {
+		let e = e?;
+		let (p, q) = (e.path(), b.join(e.file_name()));
+		if p.is_dir() {
+			copy_dir(&p, &q)?;
+		} else {
+			std::fs::write(&q, std::fs::read(&p)?)?;
+		}
+	}
+	Ok(())
+}
+
+/// Store-level leg (the property's anchors include the store's open path): the commit log
+/// of a real store - one record per commit, nothing flushed - is cut or damaged at rest; then
+/// * recovery mode with repair: open succeeds, the commits read back are a prefix that holds
+///   every commit whose record lies wholly before the damage, and commits made AFTER that
+///   open are read back by the next open;
+/// * absolute-consistency mode: if the log reader reports corruption for the damaged segment,
+///   open fails; if it reads to a clean end, open succeeds with exactly what was read.
+fn store_leg(seed: u64, j: &mut Judged) {
+	let mut rng = Rng::new(seed ^ 0x57a1);
+	let root = fresh_dir("walst");
+	let pristine = root.join("pristine");
+	let work = root.join("db");
+	std::fs::create_dir_all(&pristine).ok();
+	ip::set_now(ip::SIM_EPOCH_NS);
+	ip::enable_clock(true);
+	ip::enable_rand(true, seed);
+	let mut opts = StoreOpts::default();
+	opts.memtable = 4 << 20;
+	opts.flush_on_close = false;
+	let rt = tokio::runtime::Builder::new_current_thread().enable_time().start_paused(true).build().unwrap();
+	let val = |i: usize, len: usize| -> Vec<u8> { record(70_000 + i as u32, len) };
+	let violation: Option<Violation> = rt.block_on(async {
+		// 1. a store whose commits live only in its commit log
+		let n = rng.range(2, 9) as usize;
+		let lens: Vec<usize> = (0..n)
+			.map(|_| match rng.below(6) {
+				0 => rng.range(1, 30),
+				1 | 2 => rng.range(30, 2000),
+				3 => rng.range(BLOCK - 200, BLOCK + 200),
+				4 => rng.range(BLOCK, 3 * BLOCK),
+				_ => rng.range(2000, 20000),
+			} as usize)
+			.collect();
+		{
+			let t = match open_store(&opts, &pristine) {
+				Ok(t) => t,
+				Err(e) => return Some(Violation::new("open_failed", format!("store leg: fresh open failed: {}", e))),
+			};
+			for (i, len) in lens.iter().enumerate() {
+				let mut txn = t.begin().unwrap();
+				let _ = txn.set(format!("c{}", i).as_bytes(), val(i, *len).as_slice());
+				if let Err(e) = txn.commit().await {
+					return Some(Violation::new("append_failed", format!("store leg: commit failed: {}", e)));
+				}
+			}
+			if let Err(e) = t.close().await {
+				return Some(Violation::new("append_failed", format!("store leg: close failed: {}", e)));
+			}
+		}
+		let mut segs: Vec<std::path::PathBuf> = std::fs::read_dir(pristine.join("wal")).map(|rd| rd.flatten().map(|e| e.path()).filter(|p| p.extension().map(|x| x == "wal").unwrap_or(false)).collect()).unwrap_or_default();
+		segs.sort();
+		let seg = match segs.iter().find(|p| std::fs::metadata(p).map(|m| m.len() > 0).unwrap_or(false)) {
+			Some(s) => s.clone(),
+			None => {
+				j.count("store_leg.skipped", 1);
+				return None;
+			}
+		};
+		let (base, end) = match wal_read_segment_with_offsets(&seg) {
+			Ok(x) => x,
+			Err(e) => return Some(Violation::new("read_failed", format!("store leg: {}", e))),
+		};
+		if base.len() != n || end != WalReadEnd::Eof || segs.iter().filter(|p| std::fs::metadata(p).map(|m| m.len() > 0).unwrap_or(false)).count() != 1 {
+			// not the layout this leg reasons about (one record per commit in one segment)
+			j.count("store_leg.skipped", 1);
+			return None;
+		}
+		let ends: Vec<u64> = base.iter().map(|r| r.1).collect();
+		let orig = std::fs::read(&seg).unwrap_or_default();
+		let rel = seg.strip_prefix(&pristine).unwrap().to_path_buf();
+		let ctx = format!("store with {} commits of {:?} value bytes, segment {} bytes", n, lens, orig.len());
+		// 2. damage positions: around record ends, block boundaries, anywhere
+		for round in 0..rng.range(4, 8) {
+			let pos = match rng.below(4) {
+				0 | 1 => {
+					let e = ends[rng.below(ends.len() as u64) as usize] as i64 + rng.below(19) as i64 - 9;
+					e.clamp(0, orig.len() as i64 - 1) as usize
+				}
+				2 if orig.len() as u64 > BLOCK => (BLOCK as i64 + rng.below(19) as i64 - 9).clamp(0, orig.len() as i64 - 1) as usize,
+				_ => rng.below(orig.len() as u64) as usize,
+			};
+			let mut data = orig.clone();
+			let what = if rng.chance(1, 2) {
+				data.truncate(pos);
+				format!("segment truncated to {} bytes", pos)
+			} else {
+				let bit = 1u8 << rng.below(8);
+				data[pos] ^= bit;
+				format!("bit {:#x} flipped at offset {}", bit, pos)
+			};
+			let must = ends.iter().filter(|e| (**e as usize) <= pos).count();
+			let stage = |dir: &Path| -> bool {
+				let _ = std::fs::remove_dir_all(dir);
+				copy_dir(&pristine, dir).is_ok() && std::fs::write(dir.join(&rel), &data).is_ok()
+			};
+			// what the log reader says about this segment
+			if !stage(&work) {
+				return Some(Violation::new("harness", "store leg: cannot stage directory".to_string()));
+			}
+			let verdict = match wal_read_segment_with_offsets(&work.join(&rel)) {
+				Ok(x) => x,
+				Err(e) => return Some(Violation::new("read_failed", format!("store leg: {}: {}", what, e))),
+			};
+			let present = |t: &surrealkv::Tree| -> Result<Vec<bool>, String> {
+				let txn = t.begin().map_err(|e| e.to_string())?;
+				let mut out = Vec::new();
+				for (i, len) in lens.iter().enumerate() {
+					match txn.get(format!("c{}", i).as_bytes()) {
+						Ok(Some(v)) if v == val(i, *len) => out.push(true),
+						Ok(None) => out.push(false),
+						Ok(Some(v)) => return Err(format!("key c{} reads {} bytes that were never written under it", i, v.len())),
+						Err(e) => return Err(format!("get c{} failed: {}", i, e)),
+					}
+				}
+				Ok(out)
+			};
+			let prefix_len = |p: &[bool]| -> Option<usize> {
+				let m = p.iter().take_while(|b| **b).count();
+				if p[m..].iter().any(|b| *b) {
+					None
+				} else {
+					Some(m)
+				}
+			};
+			// 2a. absolute consistency
+			let mut strict = opts.clone();
+			strict.absolute_consistency = true;
+			j.evaluations += 1;
+			match open_store(&strict, &work) {
+				Ok(t) => {
+					if matches!(verdict.1, WalReadEnd::Corruption(..)) {
+						let _ = t.close().await;
+						return Some(Violation::new("strict_open_accepted_damage", format!("{}: the log reader reports corruption after {} records, yet the store opened in absolute-consistency mode; {}", what, verdict.0.len(), ctx)));
+					}
+					let p = match present(&t) {
+						Ok(p) => p,
+						Err(e) => return Some(Violation::new("not_a_prefix", format!("{}: absolute-consistency open: {}; {}", what, e, ctx))),
+					};
+					let _ = t.close().await;
+					if prefix_len(&p) != Some(verdict.0.len()) {
+						return Some(Violation::new("not_a_prefix", format!("{}: the log reads cleanly to {} records, the store opened in absolute-consistency mode holds commits {:?}; {}", what, verdict.0.len(), p, ctx)));
+					}
+					j.count("store_leg.strict_open_ok", 1);
+				}
+				Err(_) => {
+					if verdict.1 == WalReadEnd::Eof {
+						return Some(Violation::new("strict_open_refused_clean_log", format!("{}: the log reads to a clean end after {} records but the store does not open in absolute-consistency mode; {}", what, verdict.0.len(), ctx)));
+					}
+					j.count("store_leg.strict_open_refused", 1);
+				}
+			}
+			// 2b. recovery with repair, then further commits, then the next open
+			if !stage(&work) {
+				return Some(Violation::new("harness", "store leg: cannot stage directory".to_string()));
+			}
+			j.evaluations += 1;
+			let t = match open_store(&opts, &work) {
+				Ok(t) => t,
+				Err(e) => return Some(Violation::new("repair_failed", format!("{}: the store does not open in the repairing recovery mode: {}; {}", what, e, ctx))),
+			};
+			let p = match present(&t) {
+				Ok(p) => p,
+				Err(e) => return Some(Violation::new("not_a_prefix", format!("{}: {}; {}", what, e, ctx))),
+			};
+			let m = match prefix_len(&p) {
+				Some(m) => m,
+				None => return Some(Violation::new("not_a_prefix", format!("{}: recovered commits {:?} are not a prefix; {}", what, p, ctx))),
+			};
+			if m < must {
+				return Some(Violation::new("valid_record_dropped", format!("{}: {} commit records lie wholly before the damage but only {} were recovered; {}", what, must, m, ctx)));
+			}
+			let extra = rng.range(1, 3) as usize;
+			for x in 0..extra {
+				let mut txn = t.begin().unwrap();
+				let _ = txn.set(format!("x{}", x).as_bytes(), val(100 + x, 40 + 33000 * (round as usize % 2)).as_slice());
+				if let Err(e) = txn.commit().await {
+					return Some(Violation::new("append_failed", format!("{}: commit after recovery failed: {}; {}", what, e, ctx)));
+				}
+			}
+			if let Err(e) = t.close().await {
+				return Some(Violation::new("append_failed", format!("{}: close after recovery failed: {}; {}", what, e, ctx)));
+			}
+			drop(t);
+			let t = match open_store(if rng.chance(1, 2) { &opts } else { &strict }, &work) {
+				Ok(t) => t,
+				Err(e) => return Some(Violation::new("append_after_repair_lost", format!("{}: after recovery + {} commits + clean close the store does not open again: {}; {}", what, extra, e, ctx))),
+			};
+			let p2 = match present(&t) {
+				Ok(p) => p,
+				Err(e) => return Some(Violation::new("not_a_prefix", format!("{}: second open: {}; {}", what, e, ctx))),
+			};
+			let txn = t.begin().unwrap();
+			let mut lost = Vec::new();
+			for x in 0..extra {
+				match txn.get(format!("x{}", x).as_bytes()) {
+					Ok(Some(v)) if v == val(100 + x, 40 + 33000 * (round as usize % 2)) => {}
+					_ => lost.push(x),
+				}
+			}
+			drop(txn);
+			let _ = t.close().await;
+			if p2 != p || !lost.is_empty() {
+				return Some(Violation::new("append_after_repair_lost", format!("{}: recovered commits {:?}; after {} further commits and a clean close the next open holds {:?} and misses further commits {:?}; {}", what, p, extra, p2, lost, ctx)));
+			}
+			j.count("store_leg.repair_rounds", 1);
+		}
+		None
+	});
+	drop(rt);
+	ip::enable_clock(false);
+	ip::enable_rand(false, 0);
+	let _ = std::fs::remove_dir_all(&root);
+	if j.violation.is_none() {
+		j.violation = violation;
+	}
+}
+
 fn judge(plan: &Plan, _tier: Tier) -> Judged {
 	let p = plan.clone();
-	match on_fresh_thread(move || run_case(&p)) {
+	match on_fresh_thread(move || {
+		let mut j = run_case(&p);
+		if j.violation.is_none() {
+			store_leg(p.case_seed, &mut j);
+		}
+		j
+	}) {
 		Ok(j) => j,
 		Err(msg) => {
 			let mut j = Judged::default();
